@@ -427,6 +427,11 @@ func genC02(o *cw) {
 			}
 		}
 	}
+	cds := ctxDocs(o)
+	o.emitCtxRestore(g, cds, "bool", 150*o.tier, false)
+	o.emitCtxRestore(g, cds, "cmp", 80*o.tier, false)
+	o.emitStatefulArgs(g, cds, "numeric", 12*o.tier)
+	o.emitStatefulArgs(g, cds, "bool", 12*o.tier)
 	for i := 0; i < 700*o.tier; i++ {
 		var p gen.Ex
 		switch g.r.Intn(4) {
@@ -531,6 +536,12 @@ func genC03(o *cw) {
 			}
 		}
 	}
+	for i := 0; i < 120*o.tier; i++ {
+		st := gen.Step{Axis: "child", Test: g.r.Pick([]string{"a", "*", "p", "node()"}), DSlash: g.r.Chance(50), Preds: []gen.Ex{g.posPred()}}
+		p := gen.Path{Abs: true, Steps: []gen.Step{{Axis: "child", Test: "*"}, st}}
+		o.features(p)
+		o.emitHist(ds, gen.Str(p, both[i%2]), "hist-positional")
+	}
 	for i := 0; i < 500*o.tier; i++ {
 		var p gen.Ex
 		if g.r.Chance(25) {
@@ -593,6 +604,7 @@ func genC12(o *cw) {
 			o.c("selall", d, "/", "-", "reverse("+s+")", "", "reverse")
 		}
 	}
+	o.emitStatefulArgs(g, ctxDocs(o), "seq", 40*o.tier)
 	// Evaluate/Select/count/reverse for node-set expressions in general
 	ga := &G{r: o.r, predAxes: allAxes}
 	for i := 0; i < 200*o.tier; i++ {
@@ -634,6 +646,7 @@ func genC11(o *cw) {
 			o.c("hash", d, r.Addr(), "-", "", "", "hash")
 		}
 	}
+	o.emitCtxRestore(g, ctxDocs(o), "union", 200*o.tier, true)
 	names := []string{"a", "a-1", "a1", "b", "*", "node()", "text()", "*"}
 	mk := func() gen.Path {
 		p := gen.Path{Abs: g.r.Chance(40)}
@@ -704,6 +717,24 @@ func genC13(o *cw) {
 	ds := append(handDocs(o, false), randDocs(o, 3*o.tier, 8, 18, []string{"a", "b"})...)
 	gi := 0
 	grp := func() string { gi++; return fmt.Sprintf("g%d", gi) }
+	cds := ctxDocs(o)
+	o.emitCtxRestore(g, cds, "union", 80*o.tier, true)
+	o.emitCtxRestore(g, cds, "cmp", 80*o.tier, false)
+	o.emitCtxRestore(g, cds, "arith", 60*o.tier, false)
+	for i := 0; i < 120*o.tier; i++ {
+		// wrappers around operands that move the cursor; absolute operands from every start node
+		m := g.mover()
+		s := gen.Str(m, both[i%2])
+		d := cds[i%len(cds)]
+		gid := grp()
+		o.c("selall", d, "/", "-", s, gid, "wrap-mover")
+		o.c("selall", d, "/", "-", s+" | "+s, gid, "wrap-mover|")
+		o.c("selall", d, "/", "-", "("+s+")", gid, "wrap-mover()")
+		if p, ok := m.(gen.Path); ok && p.Abs {
+			o.c("selall", d, "/", "-", s, "allsame", "absolute-mover")
+			o.c("evalall", d, "/", "-", "count("+s+")", "allsame", "absolute-mover")
+		}
+	}
 	for i := 0; i < 220*o.tier; i++ {
 		p := g.relPath(allAxes, 1, 3, 35)
 		o.features(p)
